@@ -19,9 +19,9 @@ var c07Dims = [][]string{
 	{"", "domain=a.com", "domain=~a.com"},
 	{"", "script", "script,image", "~script"},
 	{"", "third-party", "match-case", "~third-party"},
-	{"", "dnstype=A"},
-	{"", "ctag=x"},
-	{"", "client=1.1.1.1"},
+	{"", "dnstype=A", "dnstype=~A"},
+	{"", "ctag=x", "ctag=~x"},
+	{"", "client=1.1.1.1", "client=~1.1.1.1"},
 	{"", "denyallow=z.com"},
 }
 
@@ -280,7 +280,7 @@ func TestC07(t *testing.T) {
 					}
 				}
 			}
-			rec.NonTrivial("row|"+texts[i], map[string]any{"pool_rule": texts[i], "compared_with": "all 3072 pool rules, both directions"})
+			rec.NonTrivial("row|"+texts[i], map[string]any{"pool_rule": texts[i], "compared_with": "all pool rules, both directions"})
 		}
 		rec.EvalN(n * n)
 		rec.LabelN("pairs_exhaustive", n*n)
